@@ -17,7 +17,7 @@ LEVEL = 'exploration'
 TECHNIQUE = ('differential runtime monitor: real parser+evaluator vs reference Boolean evaluator over '
              'exhaustively enumerated sentences and all truth assignments; metamorphic variant monitor')
 RULE = ('strata: A = every grammatical token sequence over {(,),and,or,not,check} up to the length bound, '
-        'leaves numbered left to right; B = random ASTs (<= ~60 tokens, leaf reuse, constants) each in '
+        'leaves numbered left to right, and again with only one or two distinct leaves repeated; three leaf families (role checks, attribute checks, attribute names that begin with the letters of a keyword); B = random ASTs (<= ~60 tokens, leaf reuse, constants) each in '
         'several lexical variants (keyword case, ASCII whitespace, glued parentheses, redundant groups); '
         'D = deeply nested legal expressions (1-40 chained not, alternating and/or/not towers of depth 2-25, within ~60 tokens); C = every list-of-lists shape (outer<=3, inner<=3) over {leaf, other leaf, @, !, bare string, '
         'empty entry}; K = constant rules; every seventh sentence of A is parsed immediately after a malformed rule (lone operator, unbalanced parenthesis, dangling operator ...) in the same thread; F = slice of A/B carried through real JSON and YAML policy files. '
@@ -35,7 +35,7 @@ LEVEL_TEXT = ('Every grammatical sentence up to 11 (thorough: 15) tokens and eve
 LEVEL_NOTE = ('trusted: the reference evaluator/recogniser in pv/gen/expr.py; leaf checks (role:, attribute) behave as '
               'C04/C05 state; only ASCII whitespace is generated')
 PLAN = {'quick': dict(shards=4, wall=60), 'thorough': dict(shards=16, wall=420)}
-MIN = {'deep_cases': 20, 'parsed_after_malformed_rule': 100, 'evaluations': 200, 'decisions': 2000, 'allow_decisions': 100, 'deny_decisions': 100}
+MIN = {'deep_cases': 20, 'parsed_after_malformed_rule': 100, 'sentences_with_repeated_leaves': 500, 'evaluations': 200, 'decisions': 2000, 'allow_decisions': 100, 'deny_decisions': 100}
 ANCHORS = ['oslo_policy.policy:Enforcer.enforce', 'oslo_policy._parser:parse_rule',
            'oslo_policy._parser:_parse_tokenize', 'oslo_policy._parser:_parse_list_rule',
            'oslo_policy._parser:ParseState._wrap_check', 'oslo_policy._parser:ParseState._make_and_expr',
@@ -49,7 +49,12 @@ REQUIRED_ANCHORS = ['oslo_policy.policy:Enforcer.enforce']
 BOUNDS = {'quick': dict(L=11, nB=400, nvar=8, file_every=20),
           'thorough': dict(L=15, nB=40000, nvar=10, file_every=20)}
 
+KW_NAMES = ['org', 'android', 'notify', 'andy', 'oracle', 'nothing', 'Not_a', 'AND1', 'ORb', 'notes', 'order', 'andes']
+
 FAMILIES = {
+    # attribute names that merely BEGIN with the letters of a keyword are ordinary checks
+    'kw': (lambda i: '%s%d:1' % (KW_NAMES[i % len(KW_NAMES)], i),
+           lambda truth: dict({'%s%d' % (KW_NAMES[i % len(KW_NAMES)], i): 1 for i, v in enumerate(truth) if v}, roles=[])),
     'role': (lambda i: 'role:r%d' % i,
              lambda truth: {'roles': ['r%d' % i for i, v in enumerate(truth) if v]}),
     'attr': (lambda i: 'flag%d:1' % i,
@@ -113,6 +118,12 @@ def check_case(ctx, real, case):
     leaf_text = FAMILIES[fam][0]
     if s == 'A':
         toks, k = expr.number_leaves(case['toks'])
+        if case.get('reuse'):
+            # the same few leaves written again and again (leaf i -> i mod m): `a or a and b`, `not a and a` ...
+            m = case['reuse']
+            toks = [('leaf', t[1] % m) if isinstance(t, tuple) else t for t in toks]
+            k = min(k, m)
+            ctx.count('sentences_with_repeated_leaves')
         ast = expr.parse_tokens(toks)          # grammatical by construction
         text = ' '.join(leaf_text(t[1]) if isinstance(t, tuple) else t for t in toks)
         want = ref_table(ast, k)
@@ -270,7 +281,9 @@ def cases(ctx):
             if not ctx.mine(idx):
                 idx += 1
                 continue
-            case = dict(s='A', toks=list(seq), fam='role' if idx % 3 else 'attr')
+            case = dict(s='A', toks=list(seq), fam=('role', 'attr', 'kw', 'role')[idx % 4])
+            if sum(1 for t in seq if t == 'c') >= 2 and idx % 2:
+                yield dict(s='A', toks=list(seq), fam=('role', 'kw')[idx % 2], reuse=1 + (idx // 2) % 2)
             if idx % 7 == 3:
                 case['poison'] = POISON[(idx // 7) % len(POISON)]
             if idx % b['file_every'] == 0:
